@@ -37,6 +37,7 @@ import itertools
 import json
 import math
 import multiprocessing as mp
+import random
 import threading
 import time
 
@@ -2279,10 +2280,10 @@ def local_enumerated(chk):
     return out
 
 
-def local_random(chk, n):
+def local_random(chk, n, rng=None):
     """c12's layered stores (containment hierarchies, group grants, cycles, duplicates, caveats) under random policies
     built by c13's generators from rel leaves over the store's own subjects / objects / relations"""
-    rng = chk.rng
+    rng = rng or chk.rng
     out = []
     for _ in range(n):
         store, rules, _reg, queries = c12.gen_layered(rng)
@@ -2357,6 +2358,11 @@ def run(chk):
     cases += cond_cases(chk)
     cases += hash_cases(chk)
     cases += local_enumerated(chk)
+    # seeded random part of the local-checker family: drawn from a copy of chk.rng's state (a function of VERIF_SEED), so
+    # that the streams of the families above and below stay what they were before this family existed
+    fork = random.Random()
+    fork.setstate(chk.rng.getstate())
+    cases += local_random(chk, 250 if quick else 5000, rng=fork)
     chk.exhaustive = True
     check_cases(chk, cases)
     n = 3000 if quick else 40000
@@ -2364,9 +2370,6 @@ def run(chk):
         k = min(n, 4000)
         check_cases(chk, random_cases(chk, k))
         n -= k
-    # the local checker behind the Guard, seeded random part (drawn last: the streams of the families above are unchanged)
-    if len(chk.violations) < 20:
-        check_cases(chk, local_random(chk, 250 if quick else 5000))
     chk.extra["local_checker_cases"] = sum(v for k, v in chk.dist.items() if k.startswith("fam:local:") or k.startswith("fam:corpus:local"))
     chk.extra["decisions_checked"] = chk.traces
     chk.extra["f23_switch"] = "datetime and its str() share a memo key" if f23_present() else "datetimes kept apart (repaired)"
